@@ -545,6 +545,11 @@ def gen_deerr(rng, tier):
         add("nested", b"[t.x]\nq = 1\n\n[t] # " + rng.choice(MB) + b"\nb = 1\n", "t", "t", "missing-nested-reopened")
         add("nested", b"[t.x.y]\n[t.x]\n[t]\nb = 1\n[u]\n", "t", "t", "missing-nested-reopened")
         add("nested", b"[[t.x]]\nq = 1\n[t]\nb = 'x'\nc = 'y'\n", "t/b", "t.b", "nested-reopened-leaf")
+        # a table made of dotted keys where a scalar is expected: its span runs from the FIRST key of the group to the end of the
+        # LAST value, inside an inline table as well as under a header (two parser sites compute it)
+        add("nested", b"t = { b.x = 1, b.y = 2, c = 'q' }\n", "t/b", "t.b", "dotted-table-for-scalar-inline")
+        add("nested", b"t = { c = 'q', b.x = 1, b.\"y z\" = 2, b.w = 3 } # " + rng.choice(MB) + b"\n", "t/b", "t.b", "dotted-table-for-scalar-inline")
+        add("nested", b"[t]\nc = 'q'\nb.x = 1\nb.y = 2\n", "t/b", "t.b", "dotted-table-for-scalar-header")
         add("vecinner", b"[[v]]\nb = 1\nc = 'x'\n[[v]]\nb = 2\n", "v/#1", "v", "missing-aot")
         add("vecinner", b"v = [{b = 1, c = 'x'}, {c = 'y'}]\n", "v/#1", "v", "missing-inline-array")
         add("vecinner", b"[[v]]\nb = 1\nc = 'x'\n[[v]]\nb = 'z'\nc = 'y'\n", "v/#1/b", "v.b", "aot-leaf")
